@@ -144,9 +144,27 @@ func VerifTickBudget() int64 {
 	return verifSt.budget
 }
 
-// VerifBudgetExceeded records that the step budget ran out and ends the process with status 97.
+// VerifBudgetExceeded is called on every tick past the step budget. The first call records the stack, a later
+// one (verifSecondStackAfter ticks on) records it again, prints both and ends the process with status 97:
+// the frames the two stacks share from the outside in name the loop that does not terminate.
+const verifSecondStackAfter = 1000003
+
+var verifOverrun int
+var verifFirstStack []byte
+
 func VerifBudgetExceeded() {
+	verifOverrun++
+	if verifOverrun == 1 {
+		verifFirstStack = debug.Stack()
+		return
+	}
+	if verifOverrun < verifSecondStackAfter {
+		return
+	}
 	verifLog(map[string]any{"t": verifNow(), "op": "budget"})
+	os.Stderr.WriteString("=== verif stack 1 ===\n")
+	os.Stderr.Write(verifFirstStack)
+	os.Stderr.WriteString("=== verif stack 2 ===\n")
 	os.Stderr.Write(debug.Stack())
 	os.Exit(97)
 }
